@@ -462,6 +462,58 @@ fn op_glob(cmd: &Value) -> Value {
     }
 }
 
+/// C17: every span the real code reports (capture spans of a built glob and of its postfix after
+/// partitioning, locations of a build error), with the result of slicing the expression by it the
+/// way the documentation does (`&expression[start..][..n]`, done with `get` so that a span that
+/// would make it panic is data).
+fn op_spans(cmd: &Value) -> Value {
+    let e = cmd["e"].as_str().unwrap();
+    fn slice(e: &str, s: usize, n: usize) -> Value {
+        match e.get(s..).and_then(|t| t.get(..n)) {
+            Some(t) => json!(t),
+            None => Value::Null,
+        }
+    }
+    fn caps(g: &Glob<'_>, e: &str) -> Value {
+        Value::Array(
+            g.captures()
+                .map(|c| {
+                    let (s, n) = c.span();
+                    json!({"index": c.index(), "start": s, "len": n, "slice": slice(e, s, n)})
+                })
+                .collect(),
+        )
+    }
+    match Glob::new(e) {
+        Ok(g) => {
+            let mut v = json!({"ok": true, "caps": caps(&g, e)});
+            let (prefix, post) = g.clone().partition();
+            v["prefix"] = json!(prefix.to_string_lossy());
+            if let Some(post) = post {
+                let text = post.to_string();
+                let rebuilt = match Glob::new(&text) {
+                    Ok(r) => caps(&r, &text),
+                    Err(err) => json!({"error": err.to_string()}),
+                };
+                v["post"] = json!({"text": text, "caps": caps(&post, &text), "rebuilt_caps": rebuilt});
+            }
+            let owned = g.clone().into_owned();
+            v["owned_caps"] = caps(&owned, e);
+            v
+        },
+        Err(err) => {
+            let locs: Vec<Value> = err
+                .locations()
+                .map(|l| {
+                    let (s, n) = l.span();
+                    json!({"start": s, "len": n, "slice": slice(e, s, n), "label": l.to_string()})
+                })
+                .collect();
+            json!({"ok": false, "err": err.to_string(), "locations": locs})
+        },
+    }
+}
+
 fn op_any(cmd: &Value) -> Value {
     let pats = strs(&cmd["pats"]);
     let mode = cmd["mode"].as_str().unwrap_or("text");
@@ -722,6 +774,7 @@ fn main() {
             "not" => op_not(&cmd),
             "match" => op_match(&cmd),
             "esc" => op_esc(&cmd),
+            "spans" => op_spans(&cmd),
             "meta" => op_meta(&cmd),
             "anchor" => op_anchor(&cmd),
             "fold" => op_case_fold(&cmd),
